@@ -1320,11 +1320,17 @@ func (m *MapPollard) highestPos() uint64 {
 
 // GetNumLeaves returns the number of leaves that were ever added to the accumulator.
 func (m *MapPollard) GetNumLeaves() uint64 {
+	m.rwLock.RLock()
+	defer m.rwLock.RUnlock()
+
 	return m.NumLeaves
 }
 
 // GetTreeRows returns the tree rows that are allocated for this accumulator.
 func (m *MapPollard) GetTreeRows() uint8 {
+	m.rwLock.RLock()
+	defer m.rwLock.RUnlock()
+
 	return m.TotalRows
 }
 
